@@ -2,7 +2,9 @@
 use crate::common::*;
 use crate::pairhist::*;
 
-pub fn run_prop(args: &Args, prop: &str, bias: Bias, rule: &str) {
+pub fn run_prop(args: &Args, prop: &str, bias: Bias, rule: &str) { run_prop_with(args, prop, bias, rule, &|_, _, _| {}) }
+
+pub fn run_prop_with(args: &Args, prop: &str, bias: Bias, rule: &str, extra: &dyn Fn(&mut Out, &mut Rng, u64)) {
     if let Some(f) = &args.replay { std::process::exit(replay_file(prop, f, &format!("{}/scratch", args.out))); }
     let mut out = Out::new(&args.out);
     out.rule = rule.to_string();
@@ -31,6 +33,7 @@ pub fn run_prop(args: &Args, prop: &str, bias: Bias, rule: &str) {
         if c < 3 { out.sample(case.json()); }
         out.case("pairhist", &case.coq(), &r.obs, case.json());
     }
+    extra(&mut out, &mut rng, args.n);
     out.finish();
 }
 
